@@ -92,6 +92,26 @@ Definition nt_merge (own received : list nt_ticket) : list nt_ticket :=
 Definition nt_process_verify_block (c : nt_cfg) (own store : list nt_ticket) : bool :=
   nt_reached c (nt_merge own store).
 
+(* Notarization message (notarizationProcess for a block held locally and not yet notarized):
+   Block.UnknownTickets keeps the incoming tickets of verifiers the block has no ticket of, each
+   verifier once (it records every ticket it keeps); if none is new the block's own tickets must
+   pass VerifyNotarization; otherwise the new tickets are verified together (VerifyTickets), merged
+   into the block (MergeNotarization) and reachedNotarization decides on the merged list. *)
+Definition nt_unknown (own incoming : list nt_ticket) : list nt_ticket :=
+  nt_union (nt_vids own) [] incoming.
+
+Definition nt_notarization_merged (c : nt_cfg) (own incoming : list nt_ticket) : list nt_ticket :=
+  match nt_unknown own incoming with
+  | [] => own
+  | vts => if nt_verify_tickets c vts then nt_merge own vts else own
+  end.
+
+Definition nt_notarization_process (c : nt_cfg) (own incoming : list nt_ticket) : bool :=
+  match nt_unknown own incoming with
+  | [] => nt_verify_notarization c own
+  | vts => nt_verify_tickets c vts && nt_reached c (nt_merge own vts)
+  end.
+
 (* the property's measure: distinct miners of the round's magic block with a valid ticket *)
 Fixpoint nt_dedup (l : list nat) : list nat :=
   match l with
